@@ -317,9 +317,12 @@ func main() {
 	h.base = h.digest(h.root)
 
 	casItems := h.casCases(sc, thorough)
+	nestItems := h.nestedSweep(sc, rows, vs, chains)
 
 	lib.WriteCases("Cases_C16.v", []string{"model.M_AuthorityTypes", "gen.Gen_Authority", "model.M_Authority", "model.M_AuthorityCorr"},
 		"auth_case", h.items, "auth_mismatch "+runes(lib.GovAuthority()))
+	lib.WriteCases("Cases_C16nest.v", []string{"model.M_AuthorityTypes", "gen.Gen_Authority", "model.M_Authority", "model.M_AuthorityCorr", "model.M_AuthNested", "model.M_AuthNestedCorr"},
+		"nest_case", nestItems, "nest_mismatch "+runes(lib.GovAuthority()))
 	lib.WriteCases("Cases_C16cas.v", []string{"model.M_Authority", "model.M_AuthorityCorr"}, "cas_case", casItems, "cas_mismatch")
 	rep.Write()
 }
